@@ -134,13 +134,33 @@ def run(check):
         r_lo.cannot_decide('%s has no loop over config.sections()' % lname)
       continue
     loop = sec_loops[0]
+    # the returned list may be an order-preserving selection from a list filled in the loop:
+    #   candidates.append(<schema or None>) ... ; schemaList = [s for s in candidates if s is not None]
+    names = {lst}
+    for _ in range(2):
+      for n in walk_no_nested(lf.node, include_self=False):
+        if isinstance(n, ast.Assign) and len(n.targets) == 1 and isinstance(n.targets[0], ast.Name) and n.targets[0].id in names and \
+           n.lineno > loop.end_lineno:
+          v = n.value
+          src = None
+          if isinstance(v, ast.ListComp) and len(v.generators) == 1 and isinstance(v.generators[0].target, ast.Name) and \
+             isinstance(v.elt, ast.Name) and v.elt.id == v.generators[0].target.id and isinstance(v.generators[0].iter, ast.Name):
+            src = v.generators[0].iter.id
+          elif isinstance(v, ast.Call) and isinstance(v.func, ast.Name) and v.func.id == 'list' and len(v.args) == 1 and isinstance(v.args[0], ast.Name):
+            src = v.args[0].id
+          elif isinstance(v, ast.Call) and isinstance(v.func, ast.Name) and v.func.id == 'list' and len(v.args) == 1 and \
+              isinstance(v.args[0], ast.Call) and isinstance(v.args[0].func, ast.Name) and v.args[0].func.id == 'filter' and \
+              len(v.args[0].args) == 2 and isinstance(v.args[0].args[1], ast.Name):
+            src = v.args[0].args[1].id
+          if src is not None:
+            names.add(src)
     muts = []
     for n in walk_no_nested(lf.node, include_self=False):
-      if isinstance(n, ast.Call) and isinstance(n.func, ast.Attribute) and dotted(n.func.value) == lst:
+      if isinstance(n, ast.Call) and isinstance(n.func, ast.Attribute) and dotted(n.func.value) in names:
         muts.append(n)
-      elif isinstance(n, ast.Assign) and any(isinstance(t, ast.Subscript) and dotted(t.value) == lst for t in n.targets):
+      elif isinstance(n, ast.Assign) and any(isinstance(t, ast.Subscript) and dotted(t.value) in names for t in n.targets):
         muts.append(n)
-      elif isinstance(n, ast.AugAssign) and dotted(n.target) == lst:
+      elif isinstance(n, ast.AugAssign) and dotted(n.target) in names:
         muts.append(n)
     bad = [m for m in muts if not (isinstance(m, ast.Call) and m.func.attr == 'append')]
     if bad:
@@ -376,36 +396,41 @@ def run(check):
     r_ar.cannot_decide('too many paths to database.create()')
   # producer of the aggregation tuple
   la = cx.fn('carbon.storage', 'loadAggregationSchemas')
-  third = {c.args[2].id for c in walk_no_nested(la.node, include_self=False) if isinstance(c, ast.Call) and
-           dotted(c.func) == 'PatternSchema' and len(c.args) >= 3 and isinstance(c.args[2], ast.Name)}
-  prod = [n for n in walk_no_nested(la.node, include_self=False) if isinstance(n, ast.Assign) and
-          isinstance(n.value, ast.Tuple) and len(n.value.elts) == 2 and
-          any(isinstance(t, ast.Name) and t.id in third for t in n.targets)]
-  if prod:
-    e0, e1 = prod[0].value.elts
-    gla = cx.cfg(la)
-    def opt_key(e):
-      if not isinstance(e, ast.Name):
-        return None
+  gla = cx.cfg(la)
+  ps_nodes = nodes_calling(gla, lambda c: dotted(c.func) == 'PatternSchema' and len(c.args) >= 3)
+  if ps_nodes:
+    from ..paths import mentions
+    pxa = PathExec(cx, la, unroll=0, follow_exceptions=False)
+
+    def option_keys(t):
+      """the option names read (through <options>.get('<name>')) by a term"""
       keys = set()
-      nodes = gla.nodes_of(prod[0])
-      for d in reaching_defs(gla, e.id, nodes[0]) if nodes else []:
-        if d is gla.entry:
-          continue
-        v = value_assigned(d, e.id)
-        for c in ast.walk(v) if isinstance(v, ast.AST) else []:
-          if isinstance(c, ast.Call) and isinstance(c.func, ast.Attribute) and c.func.attr == 'get' and c.args and \
-             isinstance(c.args[0], ast.Constant):
-            keys.add(c.args[0].value)
-          if isinstance(c, ast.Name) and c.id == e.id:
-            keys.add('self')
-      return keys - {'self'}
-    k0, k1 = opt_key(e0), opt_key(e1)
-    if k0 == {'xfilesfactor'} and k1 == {'aggregationmethod'}:
-      r_ar.ok('aggregation schema tuple = (xfilesfactor option, aggregationmethod option)', la.loc(prod[0]))
-    else:
-      r_ar.violate('aggregation tuple layout', la, prod[0], 'the (xFilesFactor, aggregationMethod) tuple is built from '
-                   'options %s / %s' % (k0, k1))
+      def visit(x):
+        if isinstance(x, tuple):
+          if x[0] == 'meth' and x[1] == 'get' and len(x) >= 4 and isinstance(x[3], tuple) and x[3][0] == 'const':
+            keys.add(x[3][1])
+          for y in x[1:]:
+            visit(y)
+      visit(t)
+      return keys
+    seen_layouts = set()
+    for hit in pxa.run(set(ps_nodes)):
+      call = [c for c in gla.calls(hit.node) if dotted(c.func) == 'PatternSchema' and len(c.args) >= 3][0]
+      t = hit.term(call.args[2], pxa)
+      if isinstance(t, tuple) and t[0] == 'tuple' and len(t) == 3:
+        layout = (tuple(sorted(option_keys(t[1]))), tuple(sorted(option_keys(t[2]))))
+      else:
+        layout = ('?', show(t)[:80])
+      if (id(call), layout) in seen_layouts:
+        continue
+      seen_layouts.add((id(call), layout))
+      if layout == (('xfilesfactor',), ('aggregationmethod',)):
+        r_ar.ok('aggregation schema tuple = (xfilesfactor option, aggregationmethod option)', la.loc(call))
+      else:
+        r_ar.violate('aggregation tuple layout', la, call, 'the (xFilesFactor, aggregationMethod) pair given to PatternSchema is built '
+                     'from options %s / %s' % (layout[0], layout[1]))
+    if pxa.truncated:
+      r_ar.cannot_decide('too many paths through loadAggregationSchemas')
   else:
     r_ar.cannot_decide('producer of the (xFilesFactor, aggregationMethod) tuple not recognised')
 
